@@ -1752,3 +1752,52 @@ func c08r19(rc *core.RC) {
 		rc.Unknown("module/word-views", token.NoPos, "no reflect.SliceHeader laid over a string found (confirmed: encoder.stringToUint64Slice)")
 	}
 }
+
+// ---- C08.R20 the frame stack is measured by its length ----
+
+// The interpreters grow ctx.Ptrs with `append(ctx.Ptrs, make([]uintptr, newLen-len)...)` and copy frames by length:
+// the invariant they rely on is that len(Ptrs) covers every live slot. Every place that decides whether the stack is
+// large enough therefore has to measure len(Ptrs); a test of cap(Ptrs) lets a frame live beyond the length, where
+// the next growth zeroes it (in place or by not copying it).
+func c08r20(rc *core.RC) {
+	p := rc.P
+	n := 0
+	for _, short := range []string{"encoder", "vm", "vm_indent", "vm_color", "vm_color_indent", "json"} {
+		for _, fd := range p.Funcs(short) {
+			if fd.Body == nil {
+				continue
+			}
+			info := p.Info(fd)
+			fn := p.FuncName(fd)
+			k := 0
+			ast.Inspect(fd.Body, func(x ast.Node) bool {
+				call, ok := x.(*ast.CallExpr)
+				if !ok || len(call.Args) != 1 || !(core.IsBuiltin(info, call, "len") || core.IsBuiltin(info, call, "cap")) {
+					return true
+				}
+				sel, ok := core.Unparen(call.Args[0]).(*ast.SelectorExpr)
+				if !ok || sel.Sel.Name != "Ptrs" {
+					return true
+				}
+				v, ok := info.Uses[sel.Sel].(*types.Var)
+				if !ok || !v.IsField() || v.Pkg() == nil || v.Pkg().Name() != "encoder" {
+					return true
+				}
+				if path := core.PathTo(fd.Body, call); len(path) >= 2 {
+					if _, reslice := path[len(path)-2].(*ast.SliceExpr); reslice {
+						return true // Ptrs[:cap(Ptrs)] extends the length itself: not a size test
+					}
+				}
+				n++
+				k++
+				rc.Touch(fn)
+				key := fmt.Sprintf("%s/size-of-Ptrs#%d measured-by-length", fn, k)
+				rc.Check(core.IsBuiltin(info, call, "len"), key, call.Pos(), "the size of the frame stack is taken with len (%s): the growth in the interpreters preserves only the first len(Ptrs) slots, so a stack accepted by its capacity keeps live frames where the next append zeroes them", core.Src(p.Fset, call))
+				return true
+			})
+		}
+	}
+	if n < 9 {
+		rc.Unknown("encoder/frame-stack-size-tests", token.NoPos, "found %d measurements of RuntimeContext.Ptrs (confirmed: 9, Init and two growth sites per interpreter)", n)
+	}
+}
